@@ -1109,6 +1109,22 @@ impl Sessions {
     }
 }
 
+/// Verification hooks (feature `verif`, C03): the group counter store and the LRU time stamp.
+#[cfg(all(feature = "verif", feature = "groups"))]
+impl Sessions {
+    pub fn verif_group_ctr_snapshot(&self, out: &mut dyn core::fmt::Write) -> core::fmt::Result {
+        self.group_ctr_store.verif_snapshot(out)
+    }
+}
+
+#[cfg(feature = "verif")]
+impl Session {
+    /// `last_use` in milliseconds of the time driver (the LRU key of `get_session_for_eviction`).
+    pub fn verif_last_use_ms(&self) -> u64 {
+        self.last_use.as_millis()
+    }
+}
+
 impl fmt::Display for Session {
     fn fmt(&self, f: &mut fmt::Formatter<'_>) -> fmt::Result {
         write!(
